@@ -37,12 +37,13 @@ Intervals3 == IntervalGeoms(3)
 Boxes == << G("BoundingBox", <<0, 0, 2, 2>>), G("BoundingBox", <<1, 1, 3, 3>>), G("BoundingBox", <<1, 0, 2, 1>>),
             G("BoundingBox", <<2, 0, 4, 2>>), G("BoundingBox", <<0, 2, 4, 3>>), G("BoundingBox", <<3, 1, 4, 3>>),
             G("BoundingBox", <<0, 0, 4, 3>>) >>
-\* intervals, boxes, and a region with an interior ring: box (2,2,4,4) lies strictly inside the hole, box (1,1,3,3) inside
-\* it touching its border, the others across it
+\* intervals, boxes, and a region with an interior ring: box (3,3,4,4) lies strictly inside the hole (and apart from box
+\* (0,0,2,2) on BOTH axes: diagonal neighbours), box (1,1,3,3) inside it touching its border; box (0,0,4,4) strictly contains
+\* or is contained in the others (nested pairs, met in both orders)
 Mixed == << G("TimeInterval", <<0, 2>>), G("TimeInterval", <<1, 4>>),
-            G("BoundingBox", <<0, 0, 2, 2>>), G("BoundingBox", <<1, 1, 3, 3>>), G("BoundingBox", <<2, 0, 4, 2>>),
+            G("BoundingBox", <<0, 0, 2, 2>>), G("BoundingBox", <<1, 1, 3, 3>>), G("BoundingBox", <<0, 0, 4, 4>>),
             G("MultiPolygon", <<<<<<<<0, 0>>, <<6, 0>>, <<6, 6>>, <<0, 6>>, <<0, 0>>>>, <<<<1, 1>>, <<5, 1>>, <<5, 5>>, <<1, 5>>, <<1, 1>>>>>>>>),
-            G("BoundingBox", <<2, 2, 4, 4>>) >>
+            G("BoundingBox", <<3, 3, 4, 4>>) >>
 \* geometries of different kinds with literally equal coordinates (run at unit 1 s / 1 Hz, positive buffers)
 TwinGeoms == << G("TimeInterval", <<1, 2>>), G("Point", <<1, 2>>),
                 G("LineString", <<<<0, 1>>, <<2, 3>>, <<3, 1>>>>), G("MultiPoint", <<<<0, 1>>, <<2, 3>>, <<3, 1>>>>),
